@@ -9,14 +9,22 @@ RULE = ('strings are drawn per character from weighted classes (plain, ok-punctu
         'a case is non-trivial when it contains at least one character outside [A-Za-z0-9_] and distinct by its exact text; '
         'environment channel: names from a list of identifiers (and, for the tie only, of non-identifiers), values from a corpus '
         'rich in ~ : = plus random strings over ~ : = / a b . plus the general generator; sh lines for the R validation from a '
-        'corpus of probed cases, the real writer output (also mutated) and random assemblies of tilde-relevant atoms')
+        'corpus of probed cases, the real writer output (also mutated) and random assemblies of tilde-relevant atoms; flag '
+        'variables: random := definition lists (global / % / target, references, 3-4 variables, 2-6 targets), random DAGs and goal '
+        'lists against the real make; in-process projects (library chains, executables, global options of each kind present or '
+        'absent, own options present or absent) through the real Make handlers, non-trivial when steps with and without own '
+        'values of one kind coexist')
 TRUSTED = ('R model Shell/Sh.v validated against /bin/dash on this run (word splitting; second layer: assignment words, export, tilde '
            'expansion, environment along && - with a private HOME; a process in an && list is assumed to exit 0; login-name tilde '
            'prefixes, OPTIND and shell builtins as command words are outside the model fragment)',
            'R models Make/MakeRead.v and Make/MakeCall.v (define bodies, $(call ...) argument splitting, binding, body expansion, '
            'recipe lines) validated against /usr/bin/make on this run; call recipes whose command line ends in a backslash or lets $$ '
            'reach sh are outside the validated fragment',
-           'nested test drivers: each nesting level is run by the real dash in the oracle; a one-word child is a file argument')
+           'nested test drivers: each nesting level is run by the real dash in the oracle; a one-word child is a file argument',
+           'R model Make/MakeTVars.v (GNU Make lookup of target- / pattern-specific := variables with inheritance from the '
+           'dependents of a sequential run; recursive =, +=, ?=, private / override / export, patterns other than %, command-line '
+           'variables and -j are outside the model) validated against /usr/bin/make on this run; harness/c01tv.py parser of the '
+           'variable lines of a written Makefile')
 EXPLANATION = ''
 
 CORPUS_WORDS = ['', "'", "''", "'''", "a'", "'a", "'a'", "a'b", "''a", "a''", "' '", "\\", "\\'", "'\\''", "$", "$$", "#",
@@ -1240,6 +1248,13 @@ def run(rep):
     found += stage_t_env(rep, rng, n * (5 if dis else 1))
     stage_probe_env_names(rep)
     found += stage_oracle_cmdword(rep)
+    # flag variables and the goal: GNU Make's target- / pattern-specific lookup (R), the lines flags_vars and the rule handlers
+    # write (W), C01_flags_goal_independent evaluated on the real text (T), the real lines under the real make (own random
+    # stream: the other stages keep theirs)
+    from . import c01tv
+    tdis, tfound = c01tv.run_stages(rep, random.Random(rep.seed * 7919 + 17), thorough)
+    dis += tdis
+    found += tfound
     from . import c06
     for i in range(12 if thorough else 2):
         found += c06.declared_vs_delivered(rep, rng, i, 'make', odd_names=(i % 2 == 1))
